@@ -217,11 +217,22 @@ Proof.
     case_if; auto. cbv zeta. case_if. { simpl. rewrite unload_exc, exc_enter. auto. }
     set (S3 := neo_state cid to amt (enter (wrapped it cf) s)).
     assert (X : exc S3 = exc s) by (subst S3; rewrite exc_neo, exc_enter; reflexivity).
+    assert (TAIL : forall (s4 : mstate) (c1 c2 : bool), (exc s = false -> exc s4 = false) ->
+              match (if c1 then Fault (mark true s4)
+                     else if c2 then Fault (mark true (mint_state cid (sval (concat (map lst (lay (enter (wrapped it cf) s)))) (kClaim cid)) s4))
+                     else Normal (leave (wrapped it cf) (length (ntf s))
+                            (mint_state to (neo_d2 cid to amt (concat (map lst (lay (enter (wrapped it cf) s)))))
+                               (mint_state cid (sval (concat (map lst (lay (enter (wrapped it cf) s)))) (kClaim cid)) s4)))) with
+              | Normal s' => exc s = false -> exc s' = false
+              | Thrown s' => exc s' = true
+              | Fault _ => True
+              end).
+    { intros s4 c1 c2 Z. destruct c1; [|destruct c2]; auto. intros Y. rewrite exc_leave, !exc_mint. auto. }
     destruct (is_contract to).
     + specialize (IHcb to fAll false S3).
       destruct (exec pol cb to fAll false S3) as [s4|s4|s4]; auto.
-      case_if; auto. cbn beta iota. intros Z. rewrite exc_leave, !exc_mint. rewrite X in IHcb. exact (IHcb Z).
-    + case_if; auto. cbn beta iota. intros Z. rewrite exc_leave, !exc_mint, X. exact Z.
+      apply TAIL. rewrite X in IHcb. exact IHcb.
+    + apply TAIL. rewrite X. auto.
   - (* SetFee *)
     case_if; auto. simpl. rewrite unload_exc. destruct (wrapped it cf); auto.
   - (* Seq *)
@@ -403,11 +414,15 @@ Proof.
     case_if; [|simpl; auto]. cbv zeta. case_if. { fin_bad B. }
     set (S3 := neo_state cid to amt (enter (wrapped it cf) s)).
     assert (X : bad S3 = true) by (subst S3; rewrite bad_neo, bad_enter; exact B).
+    assert (TAIL : forall (s4 : mstate) (c1 c2 : bool) d1 d2, bad s4 = true ->
+              bad (rstate (if c1 then Fault (mark true s4)
+                     else if c2 then Fault (mark true (mint_state cid d1 s4))
+                     else Normal (leave (wrapped it cf) (length (ntf s)) (mint_state to d2 (mint_state cid d1 s4))))) = true).
+    { intros s4 c1 c2 d1 d2 Z. destruct c1; [|destruct c2]; fin_bad Z. }
     destruct (is_contract to).
     + specialize (IHcb to fAll false S3 X).
       destruct (exec pol cb to fAll false S3) as [s4|s4|s4]; simpl in *; auto.
-      case_if; fin_bad IHcb.
-    + case_if; fin_bad B; rewrite ?bad_enter, ?B; auto.
+    + apply TAIL. exact X.
   - (* SetFee *)
     case_if; [|simpl; auto]. fin_bad B.
   - (* Seq *)
@@ -631,6 +646,8 @@ Proof.
       destruct (exec pol cb to fAll false (neo_state cid to amt (enter w s))) as [s4|s4|s4].
       * case_if.
         { simpl in B. rewrite orb_true_r in B. discriminate. }
+        case_if.
+        { simpl in B. rewrite orb_true_r in B. discriminate. }
         apply bad_leave_false in B. destruct B as [B4 BW]. rewrite !bad_mint in B4.
         specialize (IH B4). simpl in IH.
         destruct (iexec cb to fAll (ineo cid to amt (abs s))) as [i4|i4|]; try tauto. subst i4. simpl.
@@ -643,6 +660,8 @@ Proof.
       * simpl in B. specialize (IH B). simpl in IH.
         destruct (iexec cb to fAll (ineo cid to amt (abs s))); try tauto.
     + case_if.
+      { simpl in B. rewrite orb_true_r in B. discriminate. }
+      case_if.
       { simpl in B. rewrite orb_true_r in B. discriminate. }
       apply bad_leave_false in B. destruct B as [B4 BW]. simpl.
       destruct (MINT _ F3) as [M1 M2].
